@@ -546,3 +546,49 @@ Proof.
   intros Hn. unfold dispatch_g. cbn [Z.leb Z.compare andb Z.ltb Z.eqb]. rewrite !andb_false_r.
   cbn. unfold on_connmsg_g. cbn. unfold on_kexinit_g. rewrite Hn. rewrite orb_true_r. reflexivity.
 Qed.
+
+(* ---- method-specific authentication messages need an attempt in progress ----------------------------------- *)
+(* in EVERY state without an authentication object a message of type 60..79 ends the connection *)
+Lemma method_msg_needs_attempt fixed fixk c seq t cls :
+  auth c = 0 -> 60 <= t <= 79 -> closed (dispatch_g fixed fixk c seq t cls) = true.
+Proof.
+  intros Ha Ht. unfold dispatch_g. rewrite Ha. cbn [Z.eqb negb].
+  destruct ((30 <=? t) && (t <=? 49)) eqn:E1; [zb; lia|].
+  destruct (strict c && negb (recv_enc c) && (2 <=? t) && (t <=? 4)) eqn:E0; [reflexivity|].
+  assert (E2 : (60 <=? t) && (t <=? 79) = true) by (apply andb_true_iff; split; apply Z.leb_le; lia).
+  rewrite E2. reflexivity.
+Qed.
+
+(* every way an attempt ends on a server - USERAUTH_FAILURE or USERAUTH_SUCCESS - retires the object *)
+Lemma failure_retires c : auth (send_userauth_failure c) = 0.
+Proof. unfold send_userauth_failure, send_packet, emit. crush_ifs; reflexivity. Qed.
+
+Lemma success_retires c : auth (send_userauth_success c) = 0.
+Proof.
+  unfold send_userauth_success, send_deferred. cbv zeta. autorewrite with frame. reflexivity.
+Qed.
+
+(* every server-side authentication task either ends the attempt (object retired) or is the one that sends the
+   keyboard-interactive challenge (attempt still in progress) *)
+Lemma server_task_retires c k :
+  not_server_task k = false ->
+  auth (run_task c k) = 0 \/ (exists u, k = TServerKbd u /\ auth (run_task c k) = auth c).
+Proof.
+  destruct k; simpl; intros H; try discriminate H.
+  - left. destruct (pw_valid u pw); [apply success_retires | apply failure_retires].
+  - right. exists u. split; [reflexivity|]. unfold send_packet, emit. crush_ifs; reflexivity.
+  - left. destruct (ok =? 0); [apply success_retires | apply failure_retires].
+  - left. apply failure_retires.
+Qed.
+
+(* a stale INFO_RESPONSE after the attempt was answered: the witness run of the scripted second session *)
+Definition kbd_failed : list event :=
+  [EvVersion; EvRecv 20 1; EvSettle; EvRecv 30 0; EvSettle; EvRecv 21 0; EvSettle; EvRecv 5 0; EvSettle;
+   EvRecv 50 100; EvSettle; EvRecv 50 130; EvSettle; EvRecv 61 1; EvSettle].
+
+Lemma kbd_failed_then_right_answer fixed fixk :
+  let s := run_g fixed fixk (init true) kbd_failed in
+  closed (cn s) = false /\ auth (cn s) = 0 /\ auth_complete (cn s) = false /\
+  let s' := run_g fixed fixk s [EvRecv 61 0; EvSettle] in
+  closed (cn s') = true /\ auth_complete (cn s') = false /\ authed (cn s') = 0.
+Proof. destruct fixed, fixk; vm_compute; repeat split; reflexivity. Qed.
